@@ -92,6 +92,7 @@ type Conn struct {
 	// stopAfter > 0: the reader stops for good (without draining) once it
 	// has read that many bytes, like a reader that hits a protocol error
 	stopAfter uint64
+	keepOnErr bool
 }
 
 // StopReaderAfter makes this side's reader stop reading once it has read n
@@ -644,8 +645,20 @@ func (c *Conn) fail(err error) {
 	c.readErr = err
 	c.mu.Unlock()
 	c.S.Rec.Emit("readErr", "side", c.Side, "conn", c.ID, "err", errStr(err))
+	c.mu.Lock()
+	keep := c.keepOnErr
+	c.mu.Unlock()
+	if keep {
+		// an application that notices the error later: the connection
+		// stays open (not closed) until the script closes it
+		return
+	}
 	c.Close("readfail")
 }
+
+// KeepOpenOnReadError makes this side's reader leave the connection open when
+// Read fails (until the script closes it).
+func (c *Conn) KeepOpenOnReadError() { c.mu.Lock(); c.keepOnErr = true; c.mu.Unlock() }
 
 // Write writes the next n bytes of this side's plaintext in one Write call.
 func (c *Conn) Write(n int) error {
